@@ -1347,7 +1347,10 @@ def gen_mission_case(R, maxops=14):
             else:
                 p = (w[0] + tol * 1.5, w[1] + 3.0, w[2])
             ops.append(("telem", p))
-    return {"speed": R.choice([5.0, 1.0, 12.5]), "mode": mode, "tol": tol, "ops": ops}
+    case = {"speed": R.choice([5.0, 1.0, 12.5]), "mode": mode, "tol": tol, "ops": ops}
+    if R.random() < 0.3:
+        case["via_file"] = True          # missions handed over through start_mission_with_waypoint_file
+    return case
 
 
 def mission_exhaustive(maxlen):
